@@ -117,3 +117,6 @@ pub fn prefix_xor(bitmask: u64) -> u64 {
 pub fn get_nonspace_bits(data: &[u8; 64]) -> u64 {
     unsafe { crate::util::arch::get_nonspace_bits(data) }
 }
+
+/// The block primitives of the unchecked container skipper (`src/parser.rs`).
+pub use crate::parser::verif_block::{container_block, escaped as escaped_bits, string_bits};
